@@ -841,7 +841,10 @@ impl Iterator for Step {
     fn next(&mut self) -> Option<Self::Item> {
         let result = self.iter.next();
         for _ in 0..self.step - 1 {
-            self.iter.next();
+            // There's nothing left to skip once the iterator is exhausted
+            if self.iter.next().is_none() {
+                break;
+            }
         }
         result
     }
